@@ -6,6 +6,8 @@ import CoapVerif.Model.RouterAccess
 import CoapVerif.Spec.RouterAccess
 import CoapVerif.Model.RouterNested
 import CoapVerif.Spec.RouterNested
+import CoapVerif.Model.RouterWireOpts
+import CoapVerif.Spec.RouterWireOpts
 /-!
 Driver for C17.  `drv_c17 model` replays operation lines on Model/Router (for `serve`/`match` it prints every
 outcome some map-iteration order can produce, joined by ` || `); `drv_c17 judge` evaluates Spec/Router's judge (with Spec/RouterPrefer's choice of the decomposition) on
@@ -85,6 +87,21 @@ def modelServe (r : Router) (p : String) : Router × String :=
 def decodeSegs (s : String) : Option (List Str) :=
   if s = "none" then some [] else (s.splitOn ",").mapM decodeStr
 
+/-- the third field of a `wire` line in its long form `o:<delta>.<value>,<delta>.<value>,…`: the WHOLE option list of the
+    request in wire order (values in hex, `-` = empty) -/
+def decodeOpts (s : String) : Option (List WireOpt) :=
+  if s.startsWith "o:" then
+    let body := (s.drop 2).toString
+    if body = "" then some []
+    else (body.splitOn ",").mapM (fun item =>
+      match item.splitOn "." with
+      | [d, v] => do
+        let d ← d.toNat?
+        let v ← decodeStr v
+        pure (d, v)
+      | _ => none)
+  else none
+
 /-- the preamble of a `wire` line: `<transport>+obsfail:<token>` / `+discfail:<token>`; the request carries that token -/
 def preamble (transport : String) : List FailedExchange × Token :=
   match transport.splitOn "+" with
@@ -100,6 +117,15 @@ def preamble (transport : String) : List FailedExchange × Token :=
 
 /-- `wire <transport>[+preamble] <code> <segments> <bytes>`: the transport and the bytes are the harness's business -/
 def modelWire (r : Router) (transport code segs : String) : Router × String :=
+  if segs.startsWith "o:" then
+    match code.toNat?, decodeOpts segs with
+    | some c, some ws =>
+      let path := (unmarshalOpts optionDeltaBase 0 ws).bind (fun o => wirePath (uriPathValues o))
+      let k := (r.z.filter (fun e => pathMatch e.2 (filterPath (path.getD [])))).length
+      let (failed, tok) := preamble transport
+      (r, joinWith " || " (dedup ((orders r.z).map (fun o => fmtOutcome (r.connOptsServe failed o c tok ws)))) ++ s!" ## {k}")
+    | _, _ => (r, "bad-op")
+  else
   match code.toNat?, decodeSegs segs with
   | some c, some sg =>
     let path := wirePath (decodedSegs sg)
@@ -292,6 +318,14 @@ def judgeStep (st : SpecState) (line : String) : SpecState × String :=
     | ["callerappend", _] => (st, "ok")
     | ["serve", p] => (st, judgeServeLine st p ow)
     | ["wire", _, code, segs, _] =>
+      if segs.startsWith "o:" then
+        match code.toNat?, decodeOpts segs, parseSeen ow with
+        | some c, some ws, some seen =>
+          match judgeWireOpts st c ws seen with
+          | none => (st, "ok")
+          | some cl => (st, "violates " ++ cl)
+        | _, _, _ => (st, "bad-obs")
+      else
       match code.toNat?, decodeSegs segs, parseSeen ow with
       | some c, some sg, some seen =>
         match judgeWireChosen st c sg seen with
